@@ -30,12 +30,14 @@ class FieldDef:
     def _values_ctx(self):
         output = []
         if self.possible_values:
+            quote = self.type.type_cls in [str, bool]
             for key, value in self.possible_values.items():
                 value = f'{value}' if not keyword.iskeyword(value) else f'{value}_'
                 output.append({
-                    'f_name': key,
+                    # the enumerated value as it must appear between the quotes of a python string literal
+                    'f_name': key.replace('\\', '\\\\').replace("'", "\\'") if quote else key,
                     'f_value': value,
-                    'quote': self.type.type_cls in [str, bool]
+                    'quote': quote
                 })
         return output
 
